@@ -574,6 +574,10 @@ pub fn run(op: &str, a: &Args) -> Option<Outcome> {
             let expected = (pa == pb && la == lb).to_string();
             Some(Outcome { observed, expected, note: String::new() })
         }
+        ["info", "attr_value"] => Some(crate::ops_more::info_attr_value(arg(a, "doc"))),
+        ["info", "build_print"] => Some(crate::ops_more::info_build_print(arg(a, "doc"))),
+        ["info", "build_print_inproc"] => Some(crate::ops_more::info_build_print_inproc(arg(a, "doc"))),
+        ["info", "attr_value_inproc"] => Some(crate::ops_more::info_attr_value_inproc(arg(a, "doc"))),
         ["info", kind, opn] => Some(info_op(kind, opn, a)),
         ["dom", kind, opn] => Some(dom_op(kind, opn, a)),
         ["order", "script"] => Some(crate::ops_more::order_script(arg(a, "script"))),
@@ -744,6 +748,23 @@ pub fn grid(op: &str, limit: usize) -> (usize, Vec<(Args, Outcome)>) {
         ["dom", "tree_atomic"] => {
             for sc in crate::ops_more::TREE_SCENARIOS {
                 try_one(mk(&[("scenario", sc)]), &mut n, &mut bad);
+            }
+        }
+        ["info", "attr_value"] => {
+            for d in crate::ops_more::ENTITY_DOCS {
+                try_one(mk(&[("doc", d)]), &mut n, &mut bad);
+            }
+        }
+        ["info", "build_print"] => {
+            for d in crate::ops_more::BUILD_DOCS {
+                try_one(mk(&[("doc", d)]), &mut n, &mut bad);
+            }
+            // nesting, attribute count and content-model groups a few hundred deep / wide
+            for k in [50usize, 300] {
+                let deep = format!("{}{}", "<a>".repeat(k), "</a>".repeat(k));
+                try_one(mk(&[("doc", deep.as_str())]), &mut n, &mut bad);
+                let groups = format!("<!DOCTYPE r [<!ELEMENT r {}a{}>]><r/>", "(".repeat(k.min(12)), ")".repeat(k.min(12)));
+                try_one(mk(&[("doc", groups.as_str())]), &mut n, &mut bad);
             }
         }
         ["dom", "order_keys"] => {
